@@ -163,7 +163,73 @@ pub fn check_located(text: &str, lat: f64, lon: f64, from_utc: NaiveDateTime, da
     Ok(checked)
 }
 
+/// Windows of the exact-stream grid: thorough = the whole supported range; quick = its two ends
+/// and a 400-year window that rotates with the seed.
+pub fn exact_windows(seed: u64, thorough: bool) -> Vec<(NaiveDate, NaiveDate)> {
+    let ymd = |y: i32, m: u32, d: u32| NaiveDate::from_ymd_opt(y, m, d).unwrap();
+    if thorough {
+        vec![(ymd(1900, 1, 1), ymd(9999, 12, 31))]
+    } else {
+        let w = 1960 + 400 * (seed % 20) as i32;
+        vec![(ymd(1900, 1, 1), ymd(1960, 12, 31)), (ymd(w, 1, 1), ymd((w + 399).min(9939), 12, 31)), (ymd(9940, 1, 1), ymd(9999, 12, 31))]
+    }
+}
+
+/// Exact-stream grid: for one-rule expressions taking every value of one selector parameter, the
+/// whole interval stream of a long window equals what evaluating EVERY day of the window gives.
+fn exact_grid(args: &Args, rep: &mut Report) {
+    let exprs = stream::grid_day_selectors(args.thorough(), args.seed);
+    let mut st = stream::ExactStats { days_evaluated: 0, intervals_compared: 0, next_change_calls: 0 };
+    let suffixes = ["", " 10:00-12:00", " 22:00-26:00 unknown"];
+    let mut idx = 0u64;
+    for (i, base) in exprs.iter().enumerate() {
+        for (vi, suffix) in suffixes.iter().enumerate() {
+            // thorough: every variant; quick: one variant per expression, rotating with the seed
+            if !args.thorough() && (i as u64 + args.seed) % 3 != vi as u64 {
+                continue;
+            }
+            idx += 1;
+            if (idx - 1) % args.of.max(1) != args.worker {
+                continue;
+            }
+            let text = format!("{base}{suffix}");
+            let Some(oh) = build(&text, &HolSpec::None) else {
+                rep.count("exact_grid_skipped_parser_rejects");
+                continue;
+            };
+            // the whole range only for the plain variant (thorough); hour variants on the quick windows
+            let windows = exact_windows(args.seed, args.thorough() && vi == 0);
+            for (d0, d1) in windows {
+                rep.evaluations += 1;
+                rep.begin(&format!("exact grid {text} | {d0} .. {d1}"));
+                let mut r = Rng::new(args.seed, 0xe8ac7, idx);
+                match stream::check_exact(&oh, d0, d1, &mut r, 0, &mut st) {
+                    Ok(()) => {
+                        rep.count("exact_grid_windows_passed");
+                        rep.nontrivial(crate::rng::hash64(&format!("exact|{text}|{d0}")));
+                    }
+                    Err(msg) => {
+                        rep.violation("interval_stream_exact", format!("{text:?} [none]: {msg}"), json!({"expr": text, "holidays": "none", "exact_from": d0.to_string(), "exact_to": d1.to_string()}), None);
+                        if rep.full() {
+                            return;
+                        }
+                        break;
+                    }
+                }
+            }
+        }
+    }
+    rep.add("exact_grid_days_evaluated", st.days_evaluated);
+    rep.add("exact_grid_intervals_compared", st.intervals_compared);
+}
+
 pub fn run(args: &Args, rep: &mut Report) {
+    if !args.extra.iter().any(|e| e == "nogrid") {
+        exact_grid(args, rep);
+        if rep.full() {
+            return;
+        }
+    }
     let n = args.cases(60_000, 40_000);
     let cap = if args.thorough() { 20_000 } else { 4_000 };
     let mut open_ended_budget = if args.thorough() { 200 } else { 6 };
@@ -291,6 +357,18 @@ pub fn replay(args: &Args, case: &Value, rep: &mut Report) {
         let from = case["from_utc"].as_str().and_then(|s| NaiveDateTime::parse_from_str(s, "%Y-%m-%d %H:%M:%S%.f").ok()).unwrap_or_default();
         if let Err(msg) = check_located(&text, lat, lon, from, case["days"].as_i64().unwrap_or(3)) {
             rep.violation("interval_stream_located", format!("{text:?}: {msg}"), case.clone(), None);
+        }
+        return;
+    }
+    if let (Some(d0), Some(d1)) = (case["exact_from"].as_str().and_then(|s| s.parse::<NaiveDate>().ok()), case["exact_to"].as_str().and_then(|s| s.parse::<NaiveDate>().ok())) {
+        rep.evaluations += 1;
+        let Some(oh) = build(&text, &hol) else {
+            rep.violation("witness_rejected", format!("{text:?} does not parse"), case.clone(), None);
+            return;
+        };
+        let mut st = stream::ExactStats { days_evaluated: 0, intervals_compared: 0, next_change_calls: 0 };
+        if let Err(msg) = stream::check_exact(&oh, d0, d1, &mut Rng::new(5, 0, 0), 0, &mut st) {
+            rep.violation("interval_stream_exact", format!("{text:?} [{}]: {msg}", hol.to_string()), case.clone(), None);
         }
         return;
     }
